@@ -97,7 +97,12 @@ func init() {
 				c.Note = "many-errors"
 			}
 		case 3: // multi-line layout (positions on several lines)
-			c.Text = gen.Print(ec.Script.Clone(), &gen.ListLayout{Seps: []string{" ", "\n", " ", "\n  ", " "}}).Text
+			seps := []string{" ", "\n", " ", "\n  ", " "}
+			if gen.Chance(t, "multiline.nonascii", 60) {
+				// non-ASCII text inside the constructs (an excerpt of the source is printed with errors)
+				seps = []string{" ", " // é €€ 日本\n", " ", "\n  ", " /* ü🙂 */ ", "\n", " "}
+			}
+			c.Text = gen.Print(ec.Script.Clone(), &gen.ListLayout{Seps: seps}).Text
 			c.Note = "multi-line"
 		}
 		return c
